@@ -5,7 +5,10 @@ use futures::future::{BoxFuture, FutureExt};
 use parking_lot::Mutex;
 use std::collections::hash_map::RandomState;
 use std::hash::BuildHasher;
+#[cfg(not(transparencies_stretto_verif))]
 use std::sync::atomic::{AtomicBool, Ordering};
+#[cfg(transparencies_stretto_verif)]
+use stretto_verif_rt::atomic::{AtomicBool, Ordering};
 use std::sync::Arc;
 
 pub(crate) struct AsyncLFUPolicy<S = RandomState> {
